@@ -240,7 +240,7 @@ def reach_set(uni, start, d, k, via):
 
 class C06(TravBase):
     id = "C06"
-    modules = ["EG.Props.C06"]
+    modules = ["EG.Props.C06", "EG.Props.C06World"]
 
     def oracle(self, real, line, out, pre):
         w = line.split()[0]
@@ -339,7 +339,7 @@ class C07(TravBase):
 
 class C08(TravBase):
     id = "C08"
-    modules = ["EG.Props.C08"]
+    modules = ["EG.Props.C08", "EG.Props.C06World"]
     searches = True
     kinds = ["D", "U"]      # searches run with LNK_UNKNOWN_ERROR: other classes only in the random part
 
